@@ -2,6 +2,7 @@ package main
 
 import (
 	"bytes"
+	stded "crypto/ed25519"
 	"crypto/elliptic"
 	"crypto/rsa"
 	"math/big"
@@ -79,7 +80,9 @@ func runC17(c *Ctx) {
 	// Ed25519 first: its package-level tables are built on first use
 	scenario("ed25519.shared-key:Sign+Verify+Blind", func() func(g, k int) (string, string) {
 		seed := r.Bytes(32)
-		sk := ed25519.NewKeyFromSeed(seed)
+		// the key comes from crypto/ed25519 (same format), so that the fork's package-level tables are first
+		// touched by the concurrent calls below, not by this sequential setup
+		sk := ed25519.PrivateKey(stded.NewKeyFromSeed(seed))
 		pk := ed25519.PublicKey(sk[32:])
 		blind := r.Bytes(32)
 		return func(g, k int) (string, string) {
